@@ -44,6 +44,6 @@ Proof.
   - right. unfold uncovered_params. apply filter_In. split; assumption.
   - left. assert (Hc : collection_typed p = true).
     { unfold collection_typed, object_typed in *. rewrite He, Hi in *. cbn in *.
-      destruct (p_acc_int p), (p_acc_str p); cbn in *; congruence. }
+      destruct (p_acc_int p); cbn in *; congruence. }
     split; [exact Hc|]. apply typed_params_limited; assumption.
 Qed.
